@@ -65,6 +65,8 @@ def c17(pid, tier, seed, selftest=False):
                 pubs.append({"op": "pub", "id": "pc%d.%d.%d" % (k, i, c), "kind": "char", "k": k, "i": i, "c": c})
     pubs += [{"op": "pub", "id": "px%d" % k, "kind": "checksum", "k": k} for k in range(400 if thorough else 60)]
     pubs += [{"op": "pub", "id": "ps%d" % k, "kind": "short", "k": 1, "n": k} for k in range(33)]
+    for k in range(6 if thorough else 2):
+        pubs += [{"op": "pub", "id": "pp%d.%d" % (k, n), "kind": "cs_pattern", "k": k, "n": n} for n in range(120 if thorough else 70)]
     for s in pubs:
         rep.case(json.dumps(s, sort_keys=True), True)
     run_oneshot(rep, pid, "pub", "kr", pubs, tpl, seed, "Trace_Keyring", nproc=4, only_prefixes=["C17_"])
